@@ -187,8 +187,13 @@ func (s *Server) sendTransaction(t Transaction) error {
 		return nil
 	}
 
-	_, err := io.Copy(client.Connection, &t)
+	// Hand the whole transaction to the connection in a single Write so that transactions sent
+	// concurrently to the same client cannot interleave.
+	b, err := io.ReadAll(&t)
 	if err != nil {
+		return fmt.Errorf("failed to send transaction to client %v: %v", t.ClientID, err)
+	}
+	if _, err := client.Connection.Write(b); err != nil {
 		return fmt.Errorf("failed to send transaction to client %v: %v", t.ClientID, err)
 	}
 
